@@ -1,7 +1,7 @@
 (* C11 — proofs about the reward model (Rewards.v) and the translated emission functions (gen/Pure.v). *)
 From Coq Require Import Sorted.
 From ZV Require Import Prelude GoSem Rewards.
-From ZV.gen Require Import Consts Pure.
+From ZV.gen Require Import Consts Pure PureCursor.
 Open Scope Z_scope.
 Ltac Zify.zify_post_hook ::= Z.div_mod_to_equations.
 
@@ -1173,28 +1173,28 @@ Qed.
    (vm/embedded/implementation/common.go) as translated by go2coq on every run. The end time of epoch LastEpoch+1 (the
    epoch ticker's ToTime), the frontier momentum and the result of LastEpochUpdate.Save are inputs of the translations. *)
 Lemma update_due_is_source g dur now last :
-  ZV.gen.Pure.CanPerformEpochUpdate 0 now (epoch_end g dur (wrapS 64 (last + 1))) =
+  ZV.gen.PureCursor.CanPerformEpochUpdate 0 now (epoch_end g dur (wrapS 64 (last + 1))) =
   if update_due g dur now last then 0 else ZV.gen.Pure.Err_constants_ErrEpochUpdateTooRecent.
 Proof.
-  unfold ZV.gen.Pure.CanPerformEpochUpdate, update_due. cbv zeta. change (0 =? 0) with true. cbn [negb].
+  unfold ZV.gen.PureCursor.CanPerformEpochUpdate, update_due. cbv zeta. change (0 =? 0) with true. cbn [negb].
   destruct (now <? wrapS 64 (epoch_end g dur (wrapS 64 (last + 1)) + RewardTimeLimit)); reflexivity.
 Qed.
 
 Lemma cursor_step_is_source g dur now last saved :
-  ZV.gen.Pure.checkAndPerformUpdateEpoch last
-    (ZV.gen.Pure.CanPerformEpochUpdate 0 now (epoch_end g dur (wrapS 64 (last + 1)))) saved =
+  ZV.gen.PureCursor.checkAndPerformUpdateEpoch last
+    (ZV.gen.PureCursor.CanPerformEpochUpdate 0 now (epoch_end g dur (wrapS 64 (last + 1)))) saved =
   if update_due g dur now last then (saved, wrapS 64 (last + 1))
   else (ZV.gen.Pure.Err_constants_ErrEpochUpdateTooRecent, last).
 Proof.
-  rewrite update_due_is_source. unfold ZV.gen.Pure.checkAndPerformUpdateEpoch. cbv zeta.
+  rewrite update_due_is_source. unfold ZV.gen.PureCursor.checkAndPerformUpdateEpoch. cbv zeta.
   destruct (update_due g dur now last); reflexivity.
 Qed.
 
 (* one turn of `for { checkAndPerformUpdateEpoch; compute }` is one turn of update_loop *)
 Lemma update_loop_unfold_source k g dur now last :
   update_loop (S k) g dur now last =
-  match ZV.gen.Pure.checkAndPerformUpdateEpoch last
-          (ZV.gen.Pure.CanPerformEpochUpdate 0 now (epoch_end g dur (wrapS 64 (last + 1)))) 0 with
+  match ZV.gen.PureCursor.checkAndPerformUpdateEpoch last
+          (ZV.gen.PureCursor.CanPerformEpochUpdate 0 now (epoch_end g dur (wrapS 64 (last + 1)))) 0 with
   | (0, last') => match update_loop k g dur now last' with
                   | Some (es, l') => Some (last' :: es, l')
                   | None => None
@@ -1208,6 +1208,6 @@ Qed.
 
 (* the contract-level update gate (CanPerformUpdate): due iff UpdateMinNumMomentums momentums passed, uint64 arithmetic *)
 Lemma update_gate_is_source h lastu :
-  ZV.gen.Pure.CanPerformUpdate 0 h 0 lastu =
+  ZV.gen.PureCursor.CanPerformUpdate 0 h 0 lastu =
   if wrapU 64 (lastu + UpdateMinNumMomentums) <=? h then 0 else ZV.gen.Pure.Err_constants_ErrUpdateTooRecent.
 Proof. reflexivity. Qed.
